@@ -472,7 +472,7 @@ def gen(ctx, emit):
             for d in range(-40, 41):
                 emit("numenc %d" % (c + d))
                 emit("numenc %d" % -(c + d))
-    for _ in range(ctx.n(1500, 150000)):
+    for _ in range(ctx.n(6000, 150000)):
         e = rng.randint(1, 72)
         v = rng.randrange(1 << (e - 1), 1 << e)
         emit("numenc %d" % (v if rng.random() < 0.5 else -v))
@@ -482,7 +482,7 @@ def gen(ctx, emit):
     for m in "01":
         for x in range(256):
             emit("numdec %s %02x" % (m, x))
-    two = range(65536) if ctx.thorough else [x for x in range(65536) if (x & 0xFF) in (0, 1, 0x7F, 0x80, 0x81, 0xFF) or (x >> 8) in (0, 1, 0x7F, 0x80, 0x81, 0xFF) or rng.random() < 0.03]
+    two = range(65536) if ctx.thorough else [x for x in range(65536) if (x & 0xFF) in (0, 1, 0x7F, 0x80, 0x81, 0xFF) or (x >> 8) in (0, 1, 0x7F, 0x80, 0x81, 0xFF) or rng.random() < 0.08]
     for x in two:
         for m in "01":
             emit("numdec %s %04x" % (m, x))
@@ -491,7 +491,7 @@ def gen(ctx, emit):
         for cand in (b, b + b"\x00", b + b"\x80", b + b"\x00\x00", b + b"\x00\x80", (b[:-1] + bytes([b[-1] ^ 0x80])) if b else b"\x80"):
             for m in "01":
                 emit("numdec %s %s" % (m, hx(cand)))
-    for _ in range(ctx.n(1500, 150000)):
+    for _ in range(ctx.n(6000, 150000)):
         n = rng.randint(1, 10)
         b = bytearray(rb(n))
         r = rng.random()
@@ -513,7 +513,7 @@ def gen(ctx, emit):
         emit("push " + hx(b"\x00" * n))
     for n in range(0, 80):
         emit("push " + hx(rb(n)))
-    for _ in range(ctx.n(150, 6000)):
+    for _ in range(ctx.n(400, 6000)):
         n = rng.choice([rng.randint(0, 80), rng.randint(70, 300), rng.randint(250, 600), rng.choice([255, 256, 257]),
                         rng.randint(65530, 65540) if rng.random() < 0.2 else rng.randint(0, 100), rng.randint(0, 70000) if rng.random() < 0.1 else 5])
         emit("push " + hx(rb(n)))
@@ -587,7 +587,7 @@ def gen(ctx, emit):
     for x in range(256):
         emit("disasm " + hx(minimal_push(bytes([x]))))
         emit("disasm 01%02x" % x)
-    for _ in range(ctx.n(1200, 60000)):
+    for _ in range(ctx.n(4000, 60000)):
         s = clean_script()
         emit("disasm " + hx(s))
         m = rng.choice("01")
@@ -608,7 +608,7 @@ def gen(ctx, emit):
             emit("ops %s 1" % hx(s2))
             emit("ops %s 0" % hx(s2))
             emit("disasm " + hx(s2))
-    for _ in range(ctx.n(600, 40000)):  # random bytes over the whole alphabet incl. unknown opcodes 0xba..0xff
+    for _ in range(ctx.n(3000, 40000)):  # random bytes over the whole alphabet incl. unknown opcodes 0xba..0xff
         s = bytes(rng.choice([rng.randrange(256), rng.randrange(0xBA, 0x100), rng.randrange(0x4C, 0x62), rng.randrange(0, 6)]) for _i in range(rng.randint(1, 24)))
         emit("ops %s %s" % (hx(s), rng.choice("01")))
         emit("disasm " + hx(s))
@@ -660,8 +660,8 @@ def gen(ctx, emit):
             return rng.choice(lits)
         return "".join(rng.choice("0123456789abcdefABCDEFxX_-+[]'OP") for _i in range(rng.randint(1, 6)))
 
-    for _ in range(ctx.n(1500, 80000)):
+    for _ in range(ctx.n(5000, 80000)):
         toks = [rand_token() for _i in range(rng.randint(1, 5))]
         emit("compile " + tx(rng.choice([" ", " ", "\t", "\n", "  "]).join(toks)))
-    for _ in range(ctx.n(300, 20000)):  # disassembly text of clean scripts, recompiled
+    for _ in range(ctx.n(1000, 20000)):  # disassembly text of clean scripts, recompiled
         emit("compile " + tx(ref_disasm(clean_script())))
